@@ -10,11 +10,11 @@ use serde_json::json;
 use std::sync::Arc;
 use subject::{Cfg, PoolSubject, Prop};
 
-const ALL: &[&str] = &["a", "b", "bb", "c", "d", "e", "q", "f", "g", "i", "h", "j", "k", "m", "r", "s", "n", "o", "p"];
+const ALL: &[&str] = &["a", "b", "bb", "c", "d", "e", "q", "f", "g", "i", "h", "j", "k", "m", "r", "s", "t", "h2", "md1", "md2", "n", "o", "p"];
 /// coins, messages, chains, diamonds, collisions, wrong / missing inputs
-const FAMILY_COINS: &[&str] = &["a", "b", "bb", "c", "d", "e", "q", "f", "m", "r", "s", "n", "o", "p"];
-/// contracts, blobs and an ordinary parent / child pair
-const FAMILY_CONTRACTS: &[&str] = &["g", "i", "h", "j", "k", "a", "d", "r"];
+const FAMILY_COINS: &[&str] = &["a", "b", "bb", "c", "d", "e", "q", "f", "m", "r", "s", "t", "n", "o", "p"];
+/// contracts (one and two contract inputs), blobs, a data-carrying message and an ordinary parent / child pair
+const FAMILY_CONTRACTS: &[&str] = &["g", "i", "h", "h2", "j", "k", "md1", "md2", "a", "d", "r"];
 
 fn configs(u: &universe::Universe, tier: Tier) -> Vec<Cfg> {
     let gas_a = u.txs[u.idx("a")].gas;
@@ -121,7 +121,7 @@ fn main() {
         json!(u.txs.iter().map(|t| json!({"name": t.name, "tip": t.tip, "max_gas": t.gas, "size": t.size, "max_gas_price": t.max_gas_price})).collect::<Vec<_>>()),
     );
     run.note("oracle", json!(cli.property));
-    run.assume("transactions are prepared by the service's own verification pipeline (hook verify_transaction) against the genesis state; 19 fixed transactions");
+    run.assume("transactions are prepared by the service's own verification pipeline (hook verify_transaction) against the genesis state; 23 fixed transactions");
     run.assume("the persistent-storage port is a map/set model of the chain; an imported block is applied to it before the pool is told, as the importer does");
     run.assume("wall-clock stamps never enter observations or the canonical state; all pairs of transactions that can be pooled together have strictly and identically ordered tip/gas and (tip+1)/gas, so the creation-time tie-breaker is never consulted");
     run.assume("the worker's handlers are called one at a time (the worker is single-threaded by construction); queued pending-pool resolutions are an explicit letter");
